@@ -90,6 +90,9 @@ func init() {
 					}
 				}
 			}
+			if (shape == "unary" || shape == "server") && b.Client.form.Enveloped() && c.Choose("two-requests-where-one-is-due", 2) == 1 {
+				req = append(req, MkMsg(`{"name":"second request","num":2,"tags":["x"]}`))
+			}
 			for i := range req {
 				if v := c.Choose(fmt.Sprintf("req-msg%d", i), len(alpha)+1); v > 0 {
 					req[i] = MkMsg(alpha[v-1])
@@ -118,6 +121,11 @@ func init() {
 						resp = append(resp, base[i%len(base)])
 					}
 				}
+			}
+			// (a backend speaking a protocol without envelopes cannot even express a second message)
+			flatBackend := b.expectedServerProtocol() == vanguard.ProtocolREST || b.expectedServerProtocol() == vanguard.ProtocolConnect && shape == "unary"
+			if (shape == "unary" || shape == "client") && !flatBackend && c.Choose("two-responses-where-one-is-due", 2) == 1 {
+				resp = append(resp, MkMsg(`{"name":"second response","num":2,"tags":["y"]}`))
 			}
 			for i := range resp {
 				if v := c.Choose(fmt.Sprintf("resp-msg%d", i), len(msgAlphabet)+1); v > 0 {
